@@ -1250,7 +1250,19 @@ impl<Front: SocketHandler + std::fmt::Debug, L: ListenerHandler + L7ListenerHand
                         dead_backends.push(*token);
                     }
 
-                    if !client.readiness().filter_interest().is_empty() {
+                    // A backend whose peer hung up but which is kept until its buffered
+                    // bytes are drained (buffer pressure) cannot make progress by itself:
+                    // its HUP/ERROR bits stay set forever, so counting them as "ready"
+                    // makes this loop spin until MAX_LOOP_ITERATIONS closes the session,
+                    // cutting a response that is only waiting for the client's
+                    // WINDOW_UPDATE. Only READABLE/WRITABLE work keeps the loop going;
+                    // the dead backend is revisited (and closed) on the next wake-up.
+                    let mut backend_ready = client.readiness().filter_interest();
+                    if dead {
+                        backend_ready.remove(Ready::HUP);
+                        backend_ready.remove(Ready::ERROR);
+                    }
+                    if !backend_ready.is_empty() {
                         all_backends_readiness_are_empty = false;
                     }
                 }
